@@ -137,7 +137,8 @@ class JointRecurrenceNetwork(JointRecurrencePlot, Network):
 
                 #  Set diagonal of JR to zero to avoid self-loops in the joint
                 #  recurrence network
-                A = self.JR - np.eye(self.N, dtype="int8")
+                A = self.JR.copy()
+                A.flat[::self.N+1] = 0
 
                 #  Create a Network object interpreting the recurrence matrix
                 #  as the graph adjacency matrix. Joint recurrence networks
